@@ -285,6 +285,12 @@ fn job_workload(master: u64, job: u64, tier: Tier) -> Workload {
         }
     }
     let mut rng = Rng::new(derive(master, job));
+    if job % 16 == 3 {
+        return Workload {
+            file: workload::gen_png_edge_file(&mut rng),
+            members: Vec::new(),
+        };
+    }
     let sc = match tier {
         Tier::Quick => {
             if job % 8 == 7 {
